@@ -151,6 +151,14 @@ func c02Variants(c *core.Ctx, f *c02Func, foi string, seq *int) {
 		d.Name = v.name
 		p := fo.NewPrinter(nil)
 		v.src = strings.Join(p.Def(d), "\n") + "\n"
+		// a body whose (default) layout has the shape of a recorded parser finding of C01 / C06 (a multi-line
+		// if-without-else directly before an outer else / elif; a block beginning with an interpolated string) is
+		// rejected or re-associated by fc for that reason: there is no signature to judge
+		if sh := c06Shape(nil, v.src); sh != "" {
+			c.Hist("variants_out_of_domain", "layout shape of a recorded parser finding (C01/C06): "+sh, 1)
+			*seq--
+			continue
+		}
 		if mask2 == 0 {
 			f.fullSig = v.wantSig
 		}
@@ -315,6 +323,7 @@ func checkC02(c *core.Ctx) {
 	// hand corpus: more than 10 type variables (_T10 sorts before _T9)
 	c02Corpus(c, sc, fc, foi)
 	c02ExternalGenerics(c, sc, fc, foi)
+	c02ResultFirst(c, sc, fc, foi)
 }
 
 // c02Graphs enumerates functions `let f p0 .. p(n-1) (n:int) = let s0 = R0 ; let s1 = R1 ; let s2 = R2 ; (s0, s1, s2)`
@@ -575,7 +584,6 @@ func c02Sig(fd *ast.FuncDecl) string {
 	return s
 }
 
-
 // c02ExternalGenerics: functions whose parameters have an EXTERNAL generic type (dict.Dict<K, V> of
 // pkg_all.foi): every dict function wrapped directly, piped into a consumer, and two of them combined, x every
 // subset of parameter annotations.  A type variable may then occur ONLY inside the type arguments of the
@@ -626,7 +634,7 @@ func c02ExternalGenerics(c *core.Ctx, sc *impl.Scratch, fc string, foi string) {
 		gmu.Unlock()
 	}
 	type item struct {
-		name, src, want string
+		name, src, want  string
 		comparableNeeded bool
 	}
 	var items []item
@@ -692,6 +700,118 @@ func c02ExternalGenerics(c *core.Ctx, sc *impl.Scratch, fc string, foi string) {
 		c.Outcome("agree")
 	}
 	c.Set("external_generic_functions", len(items))
+}
+
+// c02ResultFirst: type variables that occur in NO parameter and first occur in the result: n = 2..3 identity
+// lambdas bound by lets in every order, returned as a tuple in a fixed order, plain or wrapped (Some .., [..],
+// a pair with a parameter in front).  "Numbered by first occurrence in the parameter list, then the result" must
+// not follow the order in which the body introduced them.
+func c02ResultFirst(c *core.Ctx, sc *impl.Scratch, fc string, foi string) {
+	V := func(n string) fo.Expr { return fo.Var{Name: n} }
+	perms := func(n int) [][]int {
+		var out [][]int
+		var rec func(cur []int, used []bool)
+		rec = func(cur []int, used []bool) {
+			if len(cur) == n {
+				out = append(out, append([]int{}, cur...))
+				return
+			}
+			for i := 0; i < n; i++ {
+				if !used[i] {
+					used[i] = true
+					rec(append(cur, i), used)
+					used[i] = false
+				}
+			}
+		}
+		rec(nil, make([]bool, n))
+		return out
+	}
+	wrappers := []string{"plain", "Some", "slice", "pair-with-parameter", "Some-and-plain"}
+	var defs []fo.FuncDef
+	k := 0
+	for n := 2; n <= 3; n++ {
+		for _, pm := range perms(n) {
+			for wi, w := range wrappers {
+				var stmts []fo.Stmt
+				for _, i := range pm {
+					stmts = append(stmts, fo.Let{Name: fmt.Sprintf("h%d", i), Rhs: fo.Lambda{Params: []fo.Param{{Name: fmt.Sprintf("x%d", i)}}, Body: fo.B(V(fmt.Sprintf("x%d", i)))}})
+				}
+				var es []fo.Expr
+				for i := 0; i < n; i++ {
+					h := V(fmt.Sprintf("h%d", i))
+					switch w {
+					case "Some":
+						es = append(es, fo.Ctor{Case: "Some", Arg: h})
+					case "slice":
+						es = append(es, fo.SliceLit{Es: []fo.Expr{h}})
+					case "Some-and-plain":
+						if i%2 == 0 {
+							es = append(es, fo.Ctor{Case: "Some", Arg: h})
+						} else {
+							es = append(es, h)
+						}
+					default:
+						es = append(es, h)
+					}
+				}
+				d := fo.FuncDef{Name: fmt.Sprintf("f_%d", 700000+k), Params: []fo.Param{{Unit: true}}}
+				k++
+				if w == "pair-with-parameter" {
+					d.Params = []fo.Param{{Name: "a"}}
+					if n == 3 {
+						continue // a 4-tuple does not exist
+					}
+					es = append([]fo.Expr{V("a")}, es...)
+				}
+				_ = wi
+				d.Body = &fo.Block{Stmts: stmts, Final: fo.Tuple{Es: es}}
+				defs = append(defs, d)
+			}
+		}
+	}
+	env := &gobatch.Env{Sc: sc, FC: fc, FCArgs: []string{sc.PkgAllFoi()}, Prelude: fo.Prelude, NoRunMain: true}
+	gens := map[string][2]string{}
+	var gmu sync.Mutex
+	env.OnGen = func(gen string) {
+		gmu.Lock()
+		for k, v := range c02ExtractFuncs(gen) {
+			gens[k] = v
+		}
+		gmu.Unlock()
+	}
+	var progs []gobatch.Prog
+	var wants, srcs []string
+	for _, d := range defs {
+		in := c02Inferer(foi)
+		ft, err := in.InferFunc(d)
+		if err != nil {
+			panic("c02 result-first: " + d.Name + ": " + err.Error())
+		}
+		unitParam := len(d.Params) == 1 && d.Params[0].Unit
+		wants = append(wants, fo.GoSig(ft, unitParam))
+		src := strings.Join(fo.NewPrinter(nil).Def(d), "\n") + "\n"
+		srcs = append(srcs, src)
+		progs = append(progs, gobatch.Prog{Defs: src + fmt.Sprintf("\nlet run_%s () =\n  say \"x\"\n", d.Name), Run: "run_" + d.Name})
+	}
+	res := env.Run(progs)
+	for i, d := range defs {
+		c.Count(1, 1, 1, 1)
+		c.DistinctNT(srcs[i], true)
+		c.Hist("by_construct", "result-first-type-variables", 1)
+		g := gens[d.Name]
+		rep := map[string]any{"input": map[string]string{"t.fo": fo.Prelude + srcs[i]}, "definition": srcs[i], "expected": wants[i], "observed": res[i].Status + " " + g[0] + " " + trunc(res[i].Detail, 600)}
+		if res[i].Status != "ok" {
+			c.Violation("C02:result-first:"+res[i].Status, fmt.Sprintf("%s %s (principal type %s)\n%s", res[i].Status, firstLines(res[i].Detail, 2), wants[i], srcs[i]), rep)
+			continue
+		}
+		if g[0] != wants[i] {
+			c.Violation("C02:result-first:signature", fmt.Sprintf("emitted signature %s, principal type %s\n%s", g[0], wants[i], srcs[i]), rep)
+			continue
+		}
+		c.Outcome("agree")
+	}
+	c.Set("result_first_functions", len(defs))
 }
 
 // c02Corpus: shapes the fuel bound does not reach.
